@@ -190,10 +190,17 @@ type e1 struct {
 	cache map[*FuncInfo]*e1func
 	inferred  map[*FuncInfo][]*Term
 	inferring map[*FuncInfo]bool
+	collapsed int
+	relevant   []*Term
+	relSeen    map[string]bool
+	relCache   map[string]bool
+	relevantFn func(*Term) bool
+	anchors   map[string]bool        // functions named by obligations: analysed modularly, never interpreted in place
+	noInline  func(*FuncInfo) bool
 }
 
 func newE1(c *Ctx, guars []*Guar) *e1 {
-	e := &e1{c: c, guars: map[string]*Guar{}, byObj: map[*types.Func]*FuncInfo{}, muts: map[*FuncInfo]map[int]bool{}, cache: map[*FuncInfo]*e1func{}}
+	e := &e1{c: c, guars: map[string]*Guar{}, byObj: map[*types.Func]*FuncInfo{}, muts: map[*FuncInfo]map[int]bool{}, cache: map[*FuncInfo]*e1func{}, anchors: map[string]bool{}}
 	for _, fi := range c.P.Funcs {
 		if fi.Obj != nil {
 			e.byObj[fi.Obj] = fi
@@ -205,6 +212,8 @@ func newE1(c *Ctx, guars []*Guar) *e1 {
 			g.facts = append(g.facts, mustFactPattern(f))
 		}
 		e.guars[g.Fn] = g
+		e.relevant = append(e.relevant, g.facts...)
+		e.addRelevant(g.Proof...)
 	}
 	e.computeMuts()
 	e.computeReads()
@@ -378,7 +387,9 @@ type e1site struct {
 	pos    token.Pos
 	states []*fstate
 	ok     []bool // for "ret": per state, is this a success return (error operand may be nil)
+	sure   []bool // for "ret": per state, is the status decided (definitely success / definitely failure)
 	retIdx int
+	chain  string // "" for the function's own sites; call chain for sites of inlined helpers
 }
 
 type e1func struct {
@@ -396,6 +407,18 @@ type e1func struct {
 	errBool  bool
 	widened  bool
 	visits   int
+	// inlining of helper functions (e1_inline.go)
+	parent    *e1func
+	depth     int
+	callPos   token.Pos
+	entry     *fstate
+	assigned  map[types.Object]int
+	addrTaken map[types.Object]bool
+	inlTarget map[*ast.CallExpr]*FuncInfo
+	inlMemo   map[string]*inlResult
+	curSites  *[]*e1site
+	emitted   map[string]bool
+	eligCache map[any]map[*ast.CallExpr]bool
 }
 
 func (e *e1) analyse(fi *FuncInfo) *e1func {
@@ -572,6 +595,7 @@ func (f *e1func) prepare() {
 	if root.Body != nil {
 		scan(root.Body, false, 0)
 	}
+	f.assigned, f.addrTaken = assigns, addrTaken
 	inl := map[types.Object]ast.Expr{}
 	for o, n := range assigns {
 		if n != 1 || addrTaken[o] || defExpr[o] == nil {
@@ -730,8 +754,11 @@ func (f *e1func) run() {
 		in[i] = map[string]*fstate{}
 	}
 	entry := &fstate{facts: map[string]*Term{}}
+	if f.entry != nil {
+		entry = f.entry
+	}
 	// parameters hold the caller's values until they are reassigned
-	if sig := f.fi.Sig; sig != nil {
+	if sig := f.fi.Sig; sig != nil && f.parent == nil {
 		var ps []*types.Var
 		if r := sig.Recv(); r != nil {
 			ps = append(ps, r)
@@ -809,6 +836,42 @@ func (f *e1func) run() {
 		}
 		f.flowBlock(b, f.sorted(in[b.Index]), &f.sites)
 	}
+	// one site per syntactic sink: instances of an interpreted helper reached in several path states are merged
+	merged := map[string]*e1site{}
+	var out []*e1site
+	for _, s := range f.sites {
+		if s.chain == "" {
+			out = append(out, s)
+			continue
+		}
+		k := fmt.Sprintf("%s|%s|%d|%s", s.chain, s.kind, s.pos, s.term.Key())
+		if m, ok := merged[k]; ok {
+			seen := map[string]bool{}
+			for _, st := range m.states {
+				seen[st.Key()] = true
+			}
+			for i, st := range s.states {
+				if !seen[st.Key()] {
+					seen[st.Key()] = true
+					m.states = append(m.states, st)
+					if i < len(s.ok) {
+						m.ok = append(m.ok, s.ok[i])
+					}
+					if i < len(s.sure) {
+						m.sure = append(m.sure, s.sure[i])
+					}
+				}
+			}
+			continue
+		}
+		c := *s
+		c.states = append([]*fstate{}, s.states...)
+		c.ok = append([]bool{}, s.ok...)
+		c.sure = append([]bool{}, s.sure...)
+		merged[k] = &c
+		out = append(out, &c)
+	}
+	f.sites = out
 	sort.SliceStable(f.sites, func(i, j int) bool { return f.sites[i].pos < f.sites[j].pos })
 }
 
@@ -916,28 +979,35 @@ func (f *e1func) flowBlock(b *cfg.Block, cur []*fstate, sites *[]*e1site) [][]*f
 			nodes = nodes[:len(nodes)-1]
 		}
 	}
+	f.curSites = sites
 	for _, n := range nodes {
 		if rs, ok := n.(*ast.ReturnStmt); ok {
-			f.doReturn(rs, cur, sites)
+			if sites != nil {
+				var pre map[*ast.CallExpr][]*fstate
+				cur, pre = f.inlineNode(cur, rs)
+				f.doReturn(rs, cur, sites, pre)
+			}
 			continue
 		}
+		// helper calls are interpreted in place (context-sensitive inlining): their facts flow in and out
+		cur0, pre := f.inlineNode(cur, n)
 		var next []*fstate
-		for _, st := range cur {
+		for _, st := range cur0 {
 			next = append(next, f.transfer(st, n, sites)...)
 		}
 		if sites != nil {
-			f.collectSites(n, cur, sites)
+			f.collectSites(n, cur0, sites, pre)
 		}
 		cur = dedupStates(next)
 	}
 	if cond != nil {
 		if sites != nil {
-			f.collectSites(cond, cur, sites)
+			f.collectSites(cond, cur, sites, nil)
 		}
 		// calls inside the condition may mutate
 		var pre []*fstate
 		for _, st := range cur {
-			pre = append(pre, f.callEffects(st, cond))
+			pre = append(pre, f.callEffects(st, cond, true))
 		}
 		pos := f.eng.c.P.Fset.Position(cond.Pos()).Line
 		for _, st := range pre {
@@ -988,6 +1058,7 @@ func (f *e1func) flowBlock(b *cfg.Block, cur []*fstate, sites *[]*e1site) [][]*f
 			site := &e1site{kind: "ret", node: f.fi.Body, term: mk("ret", ""), pos: f.fi.Body.Rbrace, states: cur, retIdx: -1}
 			for range cur {
 				site.ok = append(site.ok, true)
+				site.sure = append(site.sure, true)
 			}
 			*sites = append(*sites, site)
 		}
@@ -1025,8 +1096,12 @@ var readOnlyCallees = map[string]bool{
 }
 
 // callEffects applies kills caused by calls (mutation summaries, &v arguments, closure writes).
-func (f *e1func) callEffects(st *fstate, n ast.Node) *fstate {
+func (f *e1func) callEffects(st *fstate, n ast.Node, asCond bool) *fstate {
+	inl := f.eligible(n, asCond)
 	for _, c := range f.callsOf(n) {
+		if inl[c] {
+			continue // interpreted in place: its stores were applied precisely
+		}
 		for _, a := range c.Args {
 			if fn, _ := typeutil.Callee(f.info, c).(*types.Func); fn != nil && readOnlyCallees[calleeName(fn)] {
 				break
@@ -1102,7 +1177,7 @@ func (f *e1func) lhsTerm(e ast.Expr) *Term {
 }
 
 func (f *e1func) transfer(st *fstate, n ast.Node, sites *[]*e1site) []*fstate {
-	st = f.callEffects(st, n)
+	st = f.callEffects(st, n, false)
 	switch s := n.(type) {
 	case *ast.ExprStmt:
 		if call, ok := unparen(s.X).(*ast.CallExpr); ok {
@@ -1212,6 +1287,16 @@ func (f *e1func) transfer(st *fstate, n ast.Node, sites *[]*e1site) []*fstate {
 		if ns := st.with(add...); ns != nil {
 			st = ns
 		}
+		// results of an interpreted helper call: what is known about res(i, call) holds for the target variable
+		if len(rhs) == 1 && len(lhs) > 1 && (rhs[0].K == "call" || rhs[0].K == "mcall") {
+			st = copyResultFacts(st, rhs[0], lhs)
+		} else if len(rhs) == len(lhs) {
+			for i := range rhs {
+				if rhs[i].K == "call" || rhs[i].K == "mcall" {
+					st = copyResultFacts(st, rhs[i], []*Term{lhs[i]})
+				}
+			}
+		}
 		return []*fstate{st}
 	case *ast.DeclStmt, *ast.ValueSpec:
 		// go/cfg records each var ValueSpec of a declaration statement as its own node
@@ -1264,15 +1349,25 @@ func (f *e1func) transfer(st *fstate, n ast.Node, sites *[]*e1site) []*fstate {
 }
 
 // collectSites records call and store sites of a node with the states before the node.
-func (f *e1func) collectSites(n ast.Node, states []*fstate, sites *[]*e1site) {
-	if len(states) == 0 {
+func (f *e1func) collectSites(n ast.Node, states []*fstate, sites *[]*e1site, pre map[*ast.CallExpr][]*fstate) {
+	if len(states) == 0 && len(pre) == 0 {
 		return
 	}
 	for _, c := range f.callsOf(n) {
 		if tv, ok := f.info.Types[c.Fun]; ok && tv.IsType() {
 			continue
 		}
-		*sites = append(*sites, &e1site{kind: "call", node: c, term: f.tb.callTerm(c), pos: c.Pos(), states: states})
+		sts := states
+		if p, ok := pre[c]; ok {
+			sts = p // states before this call was evaluated (later helper calls of the statement not yet interpreted)
+		}
+		if len(sts) == 0 {
+			continue
+		}
+		*sites = append(*sites, &e1site{kind: "call", node: c, term: f.tb.callTerm(c), pos: c.Pos(), states: sts})
+	}
+	if len(states) == 0 {
+		return
 	}
 	switch s := n.(type) {
 	case *ast.AssignStmt:
@@ -1331,6 +1426,12 @@ func (f *e1func) neverNil(t *Term, st *fstate) bool {
 		if st != nil && st.has(fact("nonnil", t)) {
 			return true
 		}
+		if st != nil {
+			// v := <never-nil constructor>, still holding that value
+			if d := f.defOf(st, t); d != nil && len(d.A) == 2 && d.A[1].K != "var" && f.neverNil(d.A[1], st) {
+				return true
+			}
+		}
 	case "conv":
 		if len(t.A) == 1 {
 			return f.neverNil(t.A[0], st)
@@ -1339,7 +1440,7 @@ func (f *e1func) neverNil(t *Term, st *fstate) bool {
 	return false
 }
 
-func (f *e1func) doReturn(rs *ast.ReturnStmt, cur []*fstate, sites *[]*e1site) {
+func (f *e1func) doReturn(rs *ast.ReturnStmt, cur []*fstate, sites *[]*e1site, pre map[*ast.CallExpr][]*fstate) {
 	if sites == nil || len(cur) == 0 {
 		return
 	}
@@ -1367,7 +1468,7 @@ func (f *e1func) doReturn(rs *ast.ReturnStmt, cur []*fstate, sites *[]*e1site) {
 		}
 	}
 	// a single-result tail call whose status is that result
-	if tail == nil && nres >= 1 && len(rs.Results) == nres && f.errIdx >= 0 {
+	if tail == nil && nres >= 1 && len(rs.Results) == nres && f.errIdx >= 0 && !f.errBool {
 		if c, ok := unparen(rs.Results[f.errIdx]).(*ast.CallExpr); ok {
 			if tv, ok := f.info.Types[c.Fun]; !(ok && tv.IsType()) {
 				ct := f.tb.callTerm(c)
@@ -1378,22 +1479,24 @@ func (f *e1func) doReturn(rs *ast.ReturnStmt, cur []*fstate, sites *[]*e1site) {
 		}
 	}
 	site := &e1site{kind: "ret", node: rs, term: mk("ret", "", ops...), pos: rs.Pos(), retIdx: f.errIdx}
+	put := func(st *fstate, ok, sure bool) {
+		site.states = append(site.states, st)
+		site.ok = append(site.ok, ok)
+		site.sure = append(site.sure, sure)
+	}
 	for _, st := range cur {
 		if f.errIdx < 0 || f.errIdx >= len(ops) {
-			site.states = append(site.states, st)
-			site.ok = append(site.ok, true)
+			put(st, true, true)
 			continue
 		}
 		op := ops[f.errIdx]
 		if tail != nil {
 			// success and failure edge of the tail call
 			if ns := st.with(f.okFacts(st, tail, true)...); ns != nil {
-				site.states = append(site.states, &fstate{facts: ns.facts, from: st, via: "tail-call ok"})
-				site.ok = append(site.ok, true)
+				put(&fstate{facts: ns.facts, from: st, via: "tail-call ok"}, true, true)
 			}
 			if ns := st.with(fact("fail", tail)); ns != nil {
-				site.states = append(site.states, &fstate{facts: ns.facts, from: st, via: "tail-call fail"})
-				site.ok = append(site.ok, false)
+				put(&fstate{facts: ns.facts, from: st, via: "tail-call fail"}, false, true)
 			}
 			continue
 		}
@@ -1403,54 +1506,61 @@ func (f *e1func) doReturn(rs *ast.ReturnStmt, cur []*fstate, sites *[]*e1site) {
 				isStatus := (len(d.A) == 3 && known && fmt.Sprint(idx) == d.A[2].S) || (len(d.A) == 2 && !f.errBool)
 				if isStatus {
 					if ns := st.with(f.okFacts(st, d.A[1], true)...); ns != nil {
-						site.states = append(site.states, &fstate{facts: ns.facts, from: st, via: "returned status ok"})
-						site.ok = append(site.ok, true)
+						put(&fstate{facts: ns.facts, from: st, via: "returned status ok"}, true, true)
 					}
 					if ns := st.with(fact("fail", d.A[1])); ns != nil {
-						site.states = append(site.states, &fstate{facts: ns.facts, from: st, via: "returned status fail"})
-						site.ok = append(site.ok, false)
+						put(&fstate{facts: ns.facts, from: st, via: "returned status fail"}, false, true)
 					}
 					continue
 				}
 			}
 		}
-		success := true
 		if !f.errBool && len(rs.Results) == nres {
 			// a value of struct type converted to error is never nil (op.StatusError)
 			if t := f.info.TypeOf(rs.Results[f.errIdx]); t != nil {
 				if _, isStruct := t.Underlying().(*types.Struct); isStruct {
-					success = false
+					put(st, false, true)
+					continue
 				}
 			}
-		}
-		if !success {
-			site.states = append(site.states, st)
-			site.ok = append(site.ok, false)
-			continue
 		}
 		if f.errBool {
 			switch {
 			case op.K == "const" && op.S == "false":
-				success = false
+				put(st, false, true)
+			case op.K == "const" && op.S == "true":
+				put(st, true, true)
 			case op.K == "var" && st.has(fact("false", op)):
-				success = false
-			case op.K == "var":
-				if d := f.defOf(st, op); d != nil && f.condFactsFromDef(st, op, d, false) != nil {
-					// cannot decide: conservative success
+				put(st, false, true)
+			case op.K == "var" && st.has(fact("true", op)):
+				put(st, true, true)
+			case len(rs.Results) == nres:
+				// return <boolean expression>: the status is the value of the expression, clause by clause
+				x := rs.Results[f.errIdx]
+				for _, ns := range f.branchExpr(st, x, true) {
+					put(&fstate{facts: ns.facts, from: st, via: "returned condition true"}, true, true)
 				}
+				for _, ns := range f.branchExpr(st, x, false) {
+					put(&fstate{facts: ns.facts, from: st, via: "returned condition false"}, false, true)
+				}
+			default:
+				put(st, true, false)
 			}
-		} else {
-			switch {
-			case op.K == "nil":
-			case f.neverNil(op, st):
-				success = false
-			}
+			continue
 		}
-		site.states = append(site.states, st)
-		site.ok = append(site.ok, success)
+		switch {
+		case op.K == "nil":
+			put(st, true, true)
+		case f.neverNil(op, st):
+			put(st, false, true)
+		case op.K == "var" && st.has(fact("nil", op)):
+			put(st, true, true)
+		default:
+			put(st, true, false) // cannot decide: conservatively a success return
+		}
 	}
 	// also record call sites inside the return operands
-	f.collectSites(rs, cur, sites)
+	f.collectSites(rs, cur, sites, pre)
 	*sites = append(*sites, site)
 }
 
@@ -1531,6 +1641,9 @@ func (e *e1) inferredFacts(f *e1func, st *fstate, call *Term) []*Term {
 	}
 	if callee == nil || callee.Body == nil || callee == f.fi {
 		return nil
+	}
+	if st.has(fact("ok", call)) || st.has(fact("fail", call)) {
+		return nil // the call was interpreted in place: its facts are already in the state
 	}
 	pats := e.inferGuar(callee)
 	if len(pats) == 0 {
@@ -1828,18 +1941,24 @@ func (f *e1func) branchExpr(st *fstate, cond ast.Expr, val bool) []*fstate {
 			return out
 		}
 	}
-	fs, feasible := f.leaf(st, cond, val)
-	if !feasible {
-		return nil
-	}
-	// also state each fact with locally defined variables replaced by their (still valid) definitions
-	n := len(fs)
-	for i := 0; i < n; i++ {
-		if x := f.expandDefs(st, fs[i]); x != nil {
-			fs = append(fs, x)
+	var out []*fstate
+	for _, st := range f.inlineLeaf(st, cond) {
+		fs, feasible := f.leaf(st, cond, val)
+		if !feasible {
+			continue
+		}
+		// also state each fact with locally defined variables replaced by their (still valid) definitions
+		n := len(fs)
+		for i := 0; i < n; i++ {
+			if x := f.expandDefs(st, fs[i]); x != nil {
+				fs = append(fs, x)
+			}
+		}
+		if ns := st.with(fs...); ns != nil {
+			out = append(out, ns)
 		}
 	}
-	return one(st.with(fs...))
+	return out
 }
 
 // expandDefs substitutes v -> e for every def(v, e) fact of the state (a def fact is killed as soon
@@ -1995,7 +2114,8 @@ func (f *e1func) leaf(st *fstate, cond ast.Expr, val bool) ([]*Term, bool) {
 			return []*Term{fact(pred[1], subj, target), fact("false", ct)}, true
 		}
 		if val {
-			return []*Term{fact("true", ct)}, true
+			// what a boolean in-module predicate guarantees when it answers true
+			return append([]*Term{fact("true", ct)}, f.okFacts(st, ct, false)...), true
 		}
 		return []*Term{fact("false", ct)}, true
 	}
